@@ -646,6 +646,215 @@ fn gate_arms(ck: &syn::File, types: &syn::File) -> R {
     ))
 }
 
+
+// ---------------------------------------------------------------------------
+// `ir_signature.parameters` of `Lowerer::item`: the iterator chain that pairs
+// parameter NAMES with lowered TYPES, as a Lean function over lists.
+// Subset: `parameters.iter()`, `.zip(&mir_signature.parameter_types)`,
+// `.zip(<local Vec filled by a loop over the parameter types>)`,
+// `.filter_map(closure)`, `.map(closure)`, `.collect()`; closures of `let … =
+// lowerer.lower_type(*v)?;`, the `VarKind::Explicit` let-else, `Some((a, b))`
+// or an identifier. Anything else is an extraction failure.
+fn lean_var(i: &syn::Ident) -> String {
+    format!("v_{i}")
+}
+
+fn sp_pat(p: &Pat) -> R {
+    match p {
+        Pat::Ident(pi) if pi.by_ref.is_none() && pi.subpat.is_none() => Ok(lean_var(&pi.ident)),
+        Pat::Tuple(t) => Ok(format!("({})", t.elems.iter().map(sp_pat).collect::<Result<Vec<_>, _>>()?.join(", "))),
+        _ => Err(format!("ir_signature.parameters: pattern `{}` outside the subset", text(p))),
+    }
+}
+
+fn sp_value(e: &Expr) -> R {
+    match e {
+        Expr::Path(p) if p.path.get_ident().is_some() => Ok(lean_var(p.path.get_ident().unwrap())),
+        Expr::Tuple(t) => Ok(format!("({})", t.elems.iter().map(sp_value).collect::<Result<Vec<_>, _>>()?.join(", "))),
+        Expr::Paren(p) => sp_value(&p.expr),
+        _ => Err(format!("ir_signature.parameters: value `{}` outside the subset", text(e))),
+    }
+}
+
+/// `lowerer.lower_type(*v)` → `lower v_v`
+fn sp_lower_call(e: &Expr) -> R {
+    if let Expr::MethodCall(m) = e {
+        if m.method == "lower_type" && toks(&m.receiver) == "lowerer" && m.args.len() == 1 {
+            if let Expr::Unary(u) = &m.args[0] {
+                if matches!(u.op, syn::UnOp::Deref(_)) {
+                    return Ok(format!("lower {}", sp_value(&u.expr)?));
+                }
+            }
+        }
+    }
+    Err(format!("ir_signature.parameters: `{}` is not lowerer.lower_type(*v)", text(e)))
+}
+
+fn sp_closure(e: &Expr, optional: bool) -> R {
+    let Expr::Closure(c) = e else { return Err(format!("ir_signature.parameters: `{}` is not a closure", text(e))) };
+    if c.inputs.len() != 1 {
+        return Err("ir_signature.parameters: closure with more than one parameter".into());
+    }
+    let mut o = format!("fun {} => ", sp_pat(&c.inputs[0])?);
+    let stmts: Vec<Stmt> = match &*c.body {
+        Expr::Block(b) => b.block.stmts.clone(),
+        other => vec![Stmt::Expr(other.clone(), None)],
+    };
+    let Some((last, init)) = stmts.split_last() else { return Err("ir_signature.parameters: empty closure".into()) };
+    for st in init {
+        let Stmt::Local(l) = st else { return Err(format!("ir_signature.parameters: statement `{}` outside the subset", text(st))) };
+        if is_hook_attr(&l.attrs) {
+            continue;
+        }
+        let Some(init) = &l.init else { return Err("ir_signature.parameters: `let` without a value".into()) };
+        if let Some((_, div)) = &init.diverge {
+            // let mir::VarKind::Explicit(x) = def.kind else { ice!() };  — the name of an explicit parameter
+            let pt = toks(&l.pat);
+            let (Some(inner), true) = (pt.strip_prefix("mir::VarKind::Explicit(").and_then(|r| r.strip_suffix(")")), toks(div) == "{ice!()}")
+            else {
+                return Err(format!("ir_signature.parameters: let-else `{}` outside the subset", text(st)));
+            };
+            let it = toks(&init.expr);
+            let Some(d) = it.strip_suffix(".kind") else { return Err(format!("ir_signature.parameters: `{it}` is not <def>.kind")) };
+            if !is_ident(inner) || !is_ident(d) {
+                return Err(format!("ir_signature.parameters: let-else `{}` outside the subset", text(st)));
+            }
+            o.push_str(&format!("let v_{inner} := v_{d}; "));
+        } else if let Expr::Try(t) = &*init.expr {
+            if !optional {
+                return Err("ir_signature.parameters: `?` inside a `map` closure".into());
+            }
+            o.push_str(&format!("({}).bind fun {} => ", sp_lower_call(&t.expr)?, sp_pat(&l.pat)?));
+        } else {
+            return Err(format!("ir_signature.parameters: statement `{}` outside the subset", text(st)));
+        }
+    }
+    let Stmt::Expr(e, None) = last else { return Err("ir_signature.parameters: closure does not end in a value".into()) };
+    if optional {
+        let Expr::Call(c) = e else { return Err(format!("ir_signature.parameters: `{}` is not Some(..)", text(e))) };
+        if toks(&c.func) != "Some" || c.args.len() != 1 {
+            return Err(format!("ir_signature.parameters: `{}` is not Some(..)", text(e)));
+        }
+        o.push_str(&format!("some {}", sp_value(&c.args[0])?));
+    } else {
+        o.push_str(&sp_value(e)?);
+    }
+    Ok(o)
+}
+
+/// a local `Vec` that a loop over `mir_signature.parameter_types` fills with
+/// `extend(lowerer.lower_type(*ty))` (the loop may also return early for an
+/// uninhabited parameter: then no item is produced at all)
+fn sp_local_types(name: &str, body: &syn::Block) -> R {
+    struct Loops<'a>(Vec<&'a syn::ExprForLoop>, usize, &'a str);
+    impl<'ast> syn::visit::Visit<'ast> for Loops<'ast> {
+        fn visit_expr_for_loop(&mut self, l: &'ast syn::ExprForLoop) {
+            self.0.push(l);
+            syn::visit::visit_expr_for_loop(self, l);
+        }
+        fn visit_local(&mut self, l: &'ast syn::Local) {
+            if let (Pat::Ident(pi), Some(init)) = (&l.pat, &l.init) {
+                if pi.ident == self.2 && toks(&init.expr) == "Vec::new()" {
+                    self.1 += 1;
+                }
+            }
+            syn::visit::visit_local(self, l);
+        }
+    }
+    let mut v = Loops(Vec::new(), 0, name);
+    syn::visit::Visit::visit_block(&mut v, body);
+    if v.1 != 1 {
+        return Err(format!("ir_signature.parameters: `{name}` is not one local `Vec::new()`"));
+    }
+    // method calls on the local itself (not on a field of the same name)
+    let own_uses = |t: &str| {
+        let pat = format!("{name}.");
+        t.match_indices(&pat).filter(|(i, _)| !t[..*i].ends_with(|c: char| c == '.' || c == '_' || c.is_alphanumeric())).count()
+    };
+    let uses = own_uses(&toks(body));
+    let mut found = None;
+    for l in &v.0 {
+        if own_uses(&toks(&l.body)) == 0 {
+            continue;
+        }
+        if toks(&l.expr) != "&mir_signature.parameter_types" || found.is_some() {
+            return Err(format!("ir_signature.parameters: `{name}` is filled by a loop outside the subset"));
+        }
+        let pv = sp_pat(&l.pat)?;
+        let mut out = None;
+        for st in &l.body.stmts {
+            let t = toks(st);
+            if let Some(rest) = t.strip_prefix(&format!("{name}.extend(")).and_then(|r| r.strip_suffix(");")) {
+                let e: Expr = syn::parse_str(rest).map_err(|e| format!("ir_signature.parameters: {e}"))?;
+                if out.is_some() {
+                    return Err(format!("ir_signature.parameters: `{name}` extended twice per parameter"));
+                }
+                out = Some(format!("(tys.filterMap (fun {pv} => {}))", sp_lower_call(&e)?));
+            } else if t.starts_with("lowerer.layout_of(") && t.ends_with(")?;") && !t.contains(name) {
+                // uninhabited parameter: the whole item is skipped
+            } else {
+                return Err(format!("ir_signature.parameters: statement `{t}` in the loop filling `{name}`"));
+            }
+        }
+        found = out;
+    }
+    if uses != 1 {
+        return Err(format!("ir_signature.parameters: `{name}` is used {uses} times besides its declaration"));
+    }
+    found.ok_or(format!("ir_signature.parameters: no loop fills `{name}`"))
+}
+
+fn sp_chain(e: &Expr, body: &syn::Block) -> R {
+    let Expr::MethodCall(m) = e else { return Err(format!("ir_signature.parameters: `{}` outside the subset", text(e))) };
+    let args: Vec<&Expr> = m.args.iter().collect();
+    match (m.method.to_string().as_str(), &args[..]) {
+        ("collect", []) => sp_chain(&m.receiver, body),
+        ("iter", []) if toks(&m.receiver) == "parameters" => Ok("names".into()),
+        ("zip", [a]) => {
+            let rhs = if toks(a) == "&mir_signature.parameter_types" {
+                "tys".to_string()
+            } else if let Expr::Path(p) = a {
+                let id = p.path.get_ident().ok_or("ir_signature.parameters: zip argument")?;
+                sp_local_types(&id.to_string(), body)?
+            } else {
+                return Err(format!("ir_signature.parameters: zip with `{}`", text(a)));
+            };
+            Ok(format!("(({}).zip {rhs})", sp_chain(&m.receiver, body)?))
+        }
+        ("filter_map", [c]) => Ok(format!("(({}).filterMap ({}))", sp_chain(&m.receiver, body)?, sp_closure(c, true)?)),
+        ("map", [c]) => Ok(format!("(({}).map ({}))", sp_chain(&m.receiver, body)?, sp_closure(c, false)?)),
+        (other, _) => Err(format!("ir_signature.parameters: adapter `.{other}(..)` outside the subset")),
+    }
+}
+
+fn sig_params_def(lower: &syn::File) -> R {
+    let f = find::func(lower, "item", Some("Lowerer"))?;
+    struct Sigs<'a>(Vec<&'a syn::ExprStruct>);
+    impl<'ast> syn::visit::Visit<'ast> for Sigs<'ast> {
+        fn visit_expr_struct(&mut self, e: &'ast syn::ExprStruct) {
+            if e.path.segments.last().is_some_and(|s| s.ident == "Signature") {
+                self.0.push(e);
+            }
+            syn::visit::visit_expr_struct(self, e);
+        }
+    }
+    let mut v = Sigs(Vec::new());
+    syn::visit::Visit::visit_block(&mut v, &f.block);
+    let [sig] = &v.0[..] else { return Err(format!("Lowerer::item: expected one `Signature {{ .. }}`, found {}", v.0.len())) };
+    let field = sig
+        .fields
+        .iter()
+        .find(|fv| matches!(&fv.member, syn::Member::Named(n) if n == "parameters"))
+        .ok_or("Lowerer::item: Signature without `parameters`")?;
+    let chain = sp_chain(&field.expr, &f.block)?;
+    Ok(format!(
+        "/-- `ir_signature.parameters` of `Lowerer::item`, translated adapter by adapter: `names` = the explicit \
+         parameters of the function (`parameters`), `tys` = `mir_signature.parameter_types`, `lower` = \
+         `Lowerer::lower_type` (`none` for a zero-sized type). The code generator binds the k-th incoming argument to the \
+         name of the k-th pair. -/\ndef sigParamsOf {{ν τ ι : Type}} (lower : τ → Option ι) (names : List ν) (tys : List τ) : List (ν × ι) :=\n  {chain}\n"
+    ))
+}
+
 fn boundary(repo: &Path) -> R {
     let mut o = String::new();
     o.push_str(
@@ -1095,12 +1304,16 @@ fn boundary(repo: &Path) -> R {
         &host,
         &[
             "let(return_ir_type,return_ptr)=match lowerer.is_reference_type(return_type){Some(true)=>(None,true),Some(false)=>(lowerer.lower_type(return_type),false),None=>(None,false),};",
-            "let ir_signature=Signature{parameters:parameters.iter().zip(&mir_signature.parameter_types).filter_map(|(def,ty)|{let ty=lowerer.lower_type(*ty)?;",
-            "Some((x,ty))}).collect(),context:true,return_ptr,return_type:return_ir_type,};",
+            "let ir_signature=Signature{parameters:",
+            ".collect(),context:true,return_ptr,return_type:return_ir_type,};",
         ],
         "ir_signature",
     )?;
-    o.push_str("/-- `ir_signature.parameters`: kept iff `lower_type` is `Some` -/\ndef sigParamFilter : ArgFilter := .lowerType\n/-- `ir_signature.context` -/\ndef sigContext : Bool := true\n");
+    // the pairing of names and lowered types is translated; that its types are `filterMap lower_type` of the
+    // parameter types (= `.lowerType`) and that names stay aligned are theorems (Props/C05: sig_params_types,
+    // sig_params_aligned)
+    o.push_str(&sig_params_def(&lower)?);
+    o.push_str("/-- `ir_signature.parameters`: kept iff `lower_type` is `Some` (theorem `sig_params_types` over `sigParamsOf`) -/\ndef sigParamFilter : ArgFilter := .lowerType\n/-- `ir_signature.context` -/\ndef sigContext : Bool := true\n");
     let f = find::func(&lower, "call", Some("Lowerer"))?;
     let b = toks(&f.block);
     let call_filter = if b.matches(&strip("filter_map(|(v, t)| { self.layout_of(t).filter(|l| !l.is_zero_sized()).map(|_| v) })")).count() == 1 {
